@@ -262,6 +262,71 @@ def d1_case(act: int | None, ver: int | None, code: int | None, src: int = SRC, 
             "d1": {"act": act, "ver": ver, "code": code}}
 
 
+# ---- frames the client takes off the stream without handing them to anybody (payload types it has no parser for)
+# or which a consumer skips (other address pair, acknowledgements nobody waits for ...), WITH payloads of several
+# lengths, at several positions of ordinary exchanges, arriving in several TCP segments
+SKIP_FRAMES_QUICK = ["Unknown", "Unk:1", "Unk:2", "Unk:7", "Unk:64", "Unk:300", "UnkM:19", "UnkM:64",
+                     "DiagOther:64", "DiagOtherDst:19", "DiagUs:64", "AckOtherPair", "NackTU", "AliveReq"]
+SKIP_FRAMES_FULL = SKIP_FRAMES_QUICK + ["Unk:15", "Unk:30", "Unk:1500", "UnkM:304", "DiagOther:300", "DiagUs:300",
+                                        "DiagOther", "DiagOtherDst", "AckWrongPrev", "AckEmpty", "AckShort",
+                                        "NackBad", "HeaderNack", "Ack", "DiagUs"]
+SKIP_EVERY_OFFSET_UP_TO = {"quick": 24, "thorough": 80}  # longer frames: every offset at 3 of the 10 positions
+# (program, automatic ack+response, choice vector with "X" = the frame under test; the other numbers index ALPHA_FULL)
+SKIP_CARRIERS = [
+    ("WRR", True, ["X"]),                    # client idle; the request, its ack and the response follow
+    ("WRR", True, [0, "X"]),                 # request on the wire: before the acknowledgement
+    ("WRR", True, [0, 0, "X"]),              # between the acknowledgement and the response
+    ("WRR", True, [0, 0, 0, 0, "X"]),        # first response read, second read about to start; nothing follows
+    ("RWR", True, [0, "X"]),                 # 100 ms into a blocked read; later: request, ack, response
+    ("RWR", True, [0, 0, 0, "X"]),           # 50 ms before the read's deadline
+    ("WRR", False, [0, "X", 2, 4, 2]),       # X, Data, Ack, Data in one burst
+    ("WRR", False, [0, 2, "X", 4, 2]),       # Data, X, Ack, Data
+    ("WRR", False, [0, 2, 4, "X", 2]),       # Data, Ack, X, Data
+    ("WWR", True, [0, 0, 0, "X"]),           # between two writes
+]
+
+
+def frame_len(name: str) -> int:
+    return len(enc(gw_frame(name, b"\x22\xf1\x90", 1)))
+
+
+def skip_split_plans(tier: str, rnd: random.Random) -> list[tuple[str, bool, list[int], list[str], Any, int]]:
+    """(program, auto, choice vector, alphabet, cut, gap) for every frame of SKIP_FRAMES at every carrier position:
+    each byte boundary of the frame (header and payload) is a segment boundary in some scenario, with the next
+    segment following in the next loop iteration / after 20 ms; plus segmentations into three and more pieces.
+    cut = None: the frame arrives in one piece."""
+    quick = tier == "quick"
+    frames = SKIP_FRAMES_QUICK if quick else SKIP_FRAMES_FULL
+    out: list[tuple[str, bool, list[int], list[str], Any, int]] = []
+    for xi, x in enumerate(frames):
+        alphabet = ALPHA_FULL + ["X/" + x]
+        n = frame_len(x)
+        every = list(range(1, n))
+        # around the header/payload boundary, around every boundary of the frames embedded in the payload, the tail
+        near = (0, 1, 4, 5) if n <= 400 else (0,)
+        sample = [o for o in every if o <= 10 or o >= n - 2 or (o - 8) % 15 in near or o % 37 == 0]
+        for ci, (prog, auto, vec) in enumerate(SKIP_CARRIERS):
+            v = [len(alphabet) if c == "X" else c for c in vec]
+            out.append((prog, auto, v, alphabet, None, 0))
+            # quick: long frames get every offset at three of the carrier positions (rotating), a sample elsewhere
+            full = n <= SKIP_EVERY_OFFSET_UP_TO[tier] or (ci + xi) % len(SKIP_CARRIERS) in (1, 4, 7)
+            if n > 1000:  # every offset once, spread over the positions
+                full = (ci + xi) % len(SKIP_CARRIERS) == 1
+            for off in (every if full else sample):
+                for gap in ((0, 20) if 8 < off <= 12 or n <= 24 and not quick else (20 if (off + ci) % 2 else 0,)):
+                    out.append((prog, auto, v, alphabet, off, gap))
+            # three and more segments: header alone + payload in two pieces, a cut in the header and two in the
+            # payload, MSS-like equal pieces, random cuts
+            multi = [[8, 8 + (n - 8) // 2], [3, 9, n - 1], list(range(100, n, 100))]
+            for _ in range(2 if quick else 8):
+                multi.append(sorted(rnd.sample(every, min(len(every), rnd.randint(2, 4)))))
+            for cuts in multi:
+                cuts = sorted({c for c in cuts if 0 < c < n})
+                if len(cuts) >= 2:
+                    out.append((prog, auto, v, alphabet, cuts, rnd.choice([0, 20])))
+    return out
+
+
 MODEL_FRAME = {"ack": "Ack", "ackOther": "AckWrongPrev", "diag": "DiagUs", "diagOther": "DiagOther",
                "alive": "AliveReq", "nackBad": "NackBad", "unknown": "Unknown"}
 SCRIPTS = {"wrr": ["write", "read", "read"], "rwr": ["read", "write", "read"], "wwr": ["write", "write", "read"]}
@@ -355,7 +420,10 @@ def run(tier: str, seed: int) -> Report:
                 "relative to the client's phases (before an operation, when the request hits the wire before/after "
                 "the acknowledgement, 100 ms into a wait, 100 ms before its deadline), all choice vectors up to the "
                 "frame budget; byte-stream segmentation: every single split point of every frame of canonical "
-                "scenarios (+ random multi-splits in thorough); D1: all 256 activation types x versions x response "
+                "scenarios (+ random multi-splits in thorough); frames the client skips (unparsed payload types with "
+                "payloads of 1..300 bytes that contain well-formed frames for us, foreign address pairs, stray "
+                "acknowledgements, long messages) injected at 10 positions of the exchanges and cut at every byte "
+                "boundary of header and payload, also into 3+ segments; D1: all 256 activation types x versions x response "
                 "codes; distinct = distinct event sequences; non-trivial = at least one injected frame")
     rep.assumptions = [
         "asyncio.open_connection is replaced in the harness process by an in-memory connection (real StreamReader)",
@@ -449,6 +517,28 @@ def run(tier: str, seed: int) -> Report:
         for _ in range(nmulti):
             plan = {fi: (rnd.randint(1, 12), rnd.choice([0, 0, 5, 40])) for fi in range(1, nf + 1) if rnd.random() < 0.7}
             add(run_scenario(ListChooser(vec), prog, ALPHA_FULL, 3, auto=auto, cut_plan=plan), "multisplit")
+    # ---- segmentation inside frames the client skips (unparsed payload types with payloads of 1..300 bytes, foreign
+    # address pairs, stray acknowledgements ...): every byte boundary of the frame, at every carrier position
+    where: dict[tuple[str, bool, tuple[int, ...], str], int] = {}
+    unfed: list[str] = []  # positions the scenario never got to (only a changed client does that: judged, not split)
+    for prog, auto, vec, alphabet, cut, gap in skip_split_plans(tier, rnd):
+        x = alphabet[-1]
+        if cut is None:
+            t = run_scenario(ListChooser(vec), prog, alphabet, 5, auto=auto)
+            if t["fed"].count(x) == 1:
+                # the running number of the frame under test among the frames fed by the scenario
+                where[prog, auto, tuple(vec), x] = 1 + t["fed"].index(x)
+            else:
+                unfed.append(f"{x} in {prog}/{auto}/{vec}: {t['fed']}")
+            add(t, "skip-whole")
+            continue
+        fi = where.get((prog, auto, tuple(vec), x))
+        if fi is None:
+            continue
+        t = run_scenario(ListChooser(vec), prog, alphabet, 5, auto=auto, cut_plan={fi: (cut, gap)})
+        if len(t["fed"]) < fi or t["fed"][fi - 1] != x:
+            unfed.append(f"feed {fi} is not {x} in {prog}/{auto}/{vec}: {t['fed']}")
+        add(t, "skip-split")
     # ---- two tasks of the caller on one connection: a read is pending while another task writes
     for write_at in (100, 500):
         for ack_delay in (0, 1, 50, 300):
@@ -499,6 +589,8 @@ def run(tier: str, seed: int) -> Report:
             rep.violate(v, sig_of(t, v, idx), {"prog": t["prog"], "auto": t["auto"], "fed": t["fed"], "at_event": idx,
                                                "events": t["ev"][max(0, idx - 6): idx + 1], "origin": t["origin"],
                                                "d1": t.get("d1")})
+    if unfed and not rep.violations:
+        raise Machinery(f"skip-split: the frame under test was not fed in {len(unfed)} scenarios, e.g. {unfed[0]}")
     for t in traces[300:302] + traces[-2:]:
         rep.sample({"prog": t["prog"], "fed": t["fed"], "events": [
             (e["e"], e["t"], e.get("op") or (e.get("f") or {}).get("k"), e.get("res")) for e in t["ev"]][:24]})
